@@ -1,8 +1,36 @@
-(* C05 — a parsed database is one consistently linked object graph.  PARTIAL: resolution lemmas for
-   every heap; the invariant over the whole build (Linked) is not proved and rests on the tie (identities
-   are part of the compared dump) + the identity oracle. *)
-From PyDBML Require Import PyStr Py Heap Classes Database Build RuleFacts.
+(* C05 — a parsed database is one consistently linked object graph.
+   Proved: for EVERY source text and every option setting, the database the parser returns is [Linked]: every
+   contained top-level object is of its class and points back to the Database; lookup by full name or alias
+   returns the very Table objects positional lookup lists, and nothing else; every column and index points back
+   to its owner and is listed by exactly the table it points to.  (Side condition = defect D36: no table's
+   alias equals its own full name.)  Plus the resolution lemmas for reference endpoints and index subjects.
+   Not proved (tie + identity oracle): the stability of reference endpoints / enum-typed columns / group items
+   until the end of the build, get_refs and the SQL key holder. *)
+From PyDBML Require Import PyStr Py Heap Classes Database Tools PP Actions Build GenClasses GenGrammar Entry
+  RuleFacts ContainerInv ContainerFull TableInv BuildInv.
 Import ListNotations.
+
+Theorem C05_parsed_database_is_linked :
+  forall source allow sq dq h0 h1 d,
+    WW h0 -> (forall t tb, h_table h0 t = Some tb -> NoDup (names_of tb)) ->
+    parser_parse source allow sq dq h0 = (h1, Ok d) ->
+    (forall st, blueprints_of source allow h0 = (h0, Ok st) -> Forall good_table_bp (ps_tables st)) ->
+    d = length h0 /\ Linked h1 d.
+Proof. exact parser_parse_linked. Qed.
+Print Assumptions C05_parsed_database_is_linked.
+
+(* the same for any list of blueprints, whatever grammar produced them; also when the build fails half-way *)
+Theorem C05_build_database_keeps_invariant :
+  forall s allow sq dq h0 h1 r,
+    WW h0 -> (forall t tb, h_table h0 t = Some tb -> NoDup (names_of tb)) -> Forall good_table_bp (ps_tables s) ->
+    build_database s allow sq dq h0 = (h1, r) ->
+    (exists db, Inv h1 (length h0) db) /\ forall d, r = Ok d -> d = length h0.
+Proof. exact build_database_invariant. Qed.
+Print Assumptions C05_build_database_keeps_invariant.
+
+(* the hypotheses are satisfiable: the parser starts from an empty heap *)
+Example C05_empty_heap_ok : WW [] /\ (forall t tb, h_table [] t = Some tb -> NoDup (names_of tb)).
+Proof. split; [exact WW_empty|]. intros t tb H. destruct t; discriminate H. Qed.
 
 (* a table addressed by alias, by bare name or by schema.name resolves to a value of the name index *)
 Theorem C05_located_table_is_indexed :
